@@ -10,16 +10,21 @@ mkdir -p .work evidence replay harness/bin
   files=$(find theories -name '*.v' ! -name 'Extract.v' | sort)
   coq_makefile -f _CoqProject -o Makefile $files
   printf '%s' "$(echo "$files" | tr ' ' '\n')" > .filelist
-  timeout 3000 make -j16 > /verif/.work/coq-build.log 2>&1 || { tail -40 /verif/.work/coq-build.log; exit 1; } )
-for f in props/*.json; do
-  p=$(python3 -c "import json,sys; print(json.load(open('$f'))['coq_dir'])")
+  targets=""
+  for id in $(python3 -c "import json; print(' '.join(json.load(open('/verif/ready.json'))))"); do
+    targets="$targets $(python3 -c "import json; print(json.load(open('/verif/props/$id.json'))['props_file'][:-2]+'.vo')")"
+  done
+  timeout 3000 make -j16 $targets > /verif/.work/coq-build.log 2>&1 || { tail -40 /verif/.work/coq-build.log; exit 1; } )
+READY=$(python3 -c "import json; print(' '.join(json.load(open('ready.json'))))")
+for id in $READY; do
+  p=$(python3 -c "import json,sys; print(json.load(open('props/$id.json'))['coq_dir'])")
   tools/build_driver.sh "$p" &
 done
 wait
 cp /repo/go.sum harness/go.sum 2>/dev/null || true
 ( cd harness
-  for f in ../props/*.json; do
-    h=$(python3 -c "import json,sys; print(json.load(open('$f'))['harness'])")
+  for id in $READY; do
+    h=$(python3 -c "import json,sys; print(json.load(open('../props/$id.json'))['harness'])")
     timeout 3000 go build -tags verif -o bin/$h ./cmd/$h
   done )
 echo "setup done"
